@@ -1567,3 +1567,19 @@ M("c15-tuple-decoded-through-generator", "C15", "R12.decoder-reaches-every-depth
   "                return tuple([self._unwrap(v, self.dispatcher) for v in value])", "                return tuple(self._unwrap(v, self.dispatcher) for v in value)", desc="fix a811a5d reverted")
 M("c16-child-limit-counts-characters", "C16", "R1.limit-compared-with-bytes", "operation/child.py",
   "            payload_size: int = len(serialized_result.encode(\"utf-8\", \"surrogatepass\"))", "            payload_size: int = len(serialized_result)", desc="fix 5bb33be reverted")
+M("c12-overflow-fallback-ignores-zero-initial", "C12", "R4.overflow-fallback-follows-the-product", "retries.py",
+  """            base_delay = (
+                config.max_delay_seconds
+                if config.initial_delay_seconds > 0 and config.backoff_rate > 0
+                else 0
+            )""", "            base_delay = config.max_delay_seconds", desc="the repair of h2_C12 reverted")
+M("c18-response-none-dereferenced", "C18", "R3.foreign-attribute-none-safe", "exceptions.py",
+  "        response = getattr(exception, \"response\", None) or {}", "        response = getattr(exception, \"response\", {})", desc="repair of h2_C18 #1 reverted")
+M("c18-user-str-unguarded", "C18", "R1.user-exception-text-is-guarded", "lambda_service.py",
+  """        try:
+            message = str(exception)
+        except Exception:  # noqa: BLE001
+            # a user exception class with a broken __str__ (e.g. returning None) must still be
+            # recordable; same wording as the traceback module
+            message = "<exception str() failed>"
+""", "        message = str(exception)\n", desc="repair of h2_C18 #3 reverted")
